@@ -1215,6 +1215,10 @@ class PSBTIn:
                         )
         else:
             # non-witness input
+            if script_pubkey and (
+                script_pubkey.is_p2wpkh() or script_pubkey.is_p2wsh()
+            ):
+                raise ValueError("Non-witness UTXO provided for witness input")
             if self.redeem_script:
                 if not script_pubkey.is_p2sh():
                     raise ValueError("RedeemScript defined for non-p2sh ScriptPubKey")
